@@ -1,6 +1,10 @@
 package props
 
 import (
+	"github.com/AdguardTeam/urlfilter/filterlist"
+	"os"
+	"path/filepath"
+	"strconv"
 	"strings"
 	"sync"
 
@@ -165,12 +169,42 @@ func c12Requests(c *core.Ctx, line string) []*gen.Req {
 
 // c12Answers queries all engines over the list contents and returns a
 // canonical description of the answers.
+// c12FileDir, when set, makes c12Answers back the lists by files in that
+// directory instead of strings.
+var c12FileDir string
+
+func c12Storage(content ...string) *filterlist.RuleStorage {
+	if c12FileDir == "" {
+		return util.Storage(content...)
+	}
+	var ls []filterlist.RuleList
+	for i, t := range content {
+		fn := filepath.Join(c12FileDir, "l"+strconv.Itoa(i)+".txt")
+		if err := os.WriteFile(fn, []byte(t), 0o644); err != nil {
+			panic(err)
+		}
+		fl, err := filterlist.NewFileRuleList(i, fn, false)
+		if err != nil {
+			panic(err)
+		}
+		ls = append(ls, fl)
+	}
+	s, err := filterlist.NewRuleStorage(ls)
+	if err != nil {
+		panic(err)
+	}
+
+	return s
+}
+
 func c12Answers(c *core.Ctx, w c12Witness, reqs []*gen.Req, content ...string) (out []string, ok bool) {
 	ok = !c.Guard("engines:"+w.What, nil, w, func() {
-		eng := urlfilter.NewEngine(util.Storage(content...))
-		ne := urlfilter.NewNetworkEngine(util.Storage(content...))
-		de := urlfilter.NewDNSEngine(util.Storage(content...))
-		ce := urlfilter.NewCosmeticEngine(util.Storage(content...))
+		s1, s2, s3, s4 := c12Storage(content...), c12Storage(content...), c12Storage(content...), c12Storage(content...)
+		defer func() { _, _, _, _ = s1.Close(), s2.Close(), s3.Close(), s4.Close() }()
+		eng := urlfilter.NewEngine(s1)
+		ne := urlfilter.NewNetworkEngine(s2)
+		de := urlfilter.NewDNSEngine(s3)
+		ce := urlfilter.NewCosmeticEngine(s4)
 		for _, q := range reqs {
 			if q.HostnameReq {
 				res, m := de.MatchRequest(&urlfilter.DNSRequest{Hostname: q.Host, DNSType: q.DNSType, ClientName: q.ClientName, ClientIP: q.ClientIP, SortedClientTags: q.Tags})
@@ -374,8 +408,25 @@ func c12Run(c *core.Ctx, idx int) {
 		"empty-list-first":            {"", base},
 		"empty-and-noise-lists-after": {base, "", util.Lines(cleanNoise[:min(len(cleanNoise), 3)])},
 	}
+	fileDir := ""
+	if c.Rng.Intn(3) == 0 {
+		// The same relation with the lists backed by files (whether the last
+		// line has a terminator matters to a reader that works on buffers).
+		if d, derr := os.MkdirTemp(filepath.Join(c.Env.VerifDir, ".work"), "c12f."); derr == nil {
+			fileDir = d
+			defer os.RemoveAll(d)
+			variants["file-backed"] = []string{base}
+			variants["file-backed-no-final-newline"] = []string{strings.Join(valid, "\n")}
+			variants["file-backed-noise+crlf-no-final-newline"] = []string{strings.Join(ext, "\r\n")}
+		}
+	}
 	for name, content := range variants {
+		c12FileDir = ""
+		if strings.HasPrefix(name, "file-backed") {
+			c12FileDir = fileDir
+		}
 		a1, ok1 := c12Answers(c, c12Witness{Lines: ext, What: "inert-" + name}, reqs, content...)
+		c12FileDir = ""
 		if !ok1 {
 			continue
 		}
